@@ -193,6 +193,10 @@ pub fn std_alphabet(npos: u8, with_admin: bool) -> Vec<Op> {
     // reposition_liquidity_v2: move position 0 to an overlapping range and back (new bounds 64 / 192 share array 0 with 128)
     a.push(Op::Repos { pos: 0, lower: -64, upper: 192, liq: BIG / 2 });
     a.push(Op::Repos { pos: 0, lower: -128, upper: 128, liq: BIG });
+    // ranges the program must refuse (inverted, empty): on the pinned tree these are failed transitions that change nothing; a tree
+    // that accepts one produces a position whose claims every later state is judged with (real withdrawal on a copy)
+    a.push(Op::Repos { pos: 0, lower: 128, upper: -128, liq: BIG });
+    a.push(Op::Repos { pos: 1, lower: 128, upper: 128, liq: BIG / 2 });
     for pos in 0..npos {
         a.push(Op::Inc { pos, liq: 1, v2: pos % 2 == 0 });
         a.push(Op::Dec { pos, part: Part::Half, v2: pos % 2 == 1 });
